@@ -241,7 +241,12 @@ func (fl *File) put(b []byte) {
 	if fl.pos > len(ino.data) {
 		ino.data = append(ino.data, make([]byte, fl.pos-len(ino.data))...)
 	}
-	ino.data = append(ino.data[:fl.pos], b...)
+	// a write at pos replaces the bytes it covers and keeps what lies behind them (no implicit truncation)
+	if end := fl.pos + len(b); end < len(ino.data) {
+		ino.data = append(append(append([]byte{}, ino.data[:fl.pos]...), b...), ino.data[end:]...)
+	} else {
+		ino.data = append(ino.data[:fl.pos:fl.pos], b...)
+	}
 	fl.pos += len(b)
 	ino.dirty = true
 }
